@@ -217,6 +217,14 @@ func (in *Interp) call(st *State, call *ast.CallExpr) Val {
 		}
 	}
 
+	// a stream reached through an interface (io.Writer, io.Reader): the bytes.Buffer methods apply
+	if sig.Recv() != nil && pkg != "bytes" {
+		if bv, b, ok := in.streamOf(st, recvVal); ok {
+			if v, handled := in.streamMethod(st, bv, b, name, call); handled {
+				return v
+			}
+		}
+	}
 	// standard library models
 	switch pkg {
 	case "net":
@@ -256,7 +264,59 @@ func (in *Interp) call(st *State, call *ast.CallExpr) Val {
 			st.bufs[v.ID].Extent = Const(16)
 			return v
 		}
+	case "encoding/binary":
+		if sig.Recv() == nil && (name == "Write" || name == "Read") && len(call.Args) == 3 {
+			if sbv, b, ok := in.streamOf(st, in.eval(st, call.Args[0])); ok {
+				order := orderOfExpr(in.info, call.Args[1])
+				if name == "Write" && b.Origin == "stream" {
+					in.streamWriteValue(st, sbv.ID, order, call.Args[2], call.Pos())
+					return NilV{}
+				}
+				if name == "Read" && b.Origin == "rstream" {
+					in.streamReadValue(st, sbv.ID, order, call.Args[2], call.Pos())
+					b = st.bufs[sbv.ID]
+					// binary.Read fails (io.ErrUnexpectedEOF / io.EOF) unless the bytes were there: a nil error
+					// means the cursor is still inside the window
+					key := "err:binary.Read@" + in.w.Pos(call.Pos())
+					if st.ensures == nil {
+						st.ensures = map[string][]Fact{}
+					}
+					st.ensures[key] = []Fact{{L: b.Len, R: b.Extent, Src: "success of binary.Read at " + in.w.Pos(call.Pos())}}
+					return ObjV{Path: key, Type: types.Universe.Lookup("error").Type()}
+				}
+			}
+		}
 	case "bytes":
+		if sig.Recv() != nil {
+			if bv, b, ok := in.streamOf(st, recvVal); ok {
+				if v, handled := in.streamMethod(st, bv, b, name, call); handled {
+					return v
+				}
+			}
+		} else if (name == "NewBuffer" || name == "NewBufferString") && len(call.Args) == 1 {
+			av := in.eval(st, call.Args[0])
+			switch a := av.(type) {
+			case NilV:
+				return in.newStream(st, call.Pos())
+			case BufV:
+				ab := st.bufs[a.ID]
+				switch {
+				case ab != nil && ab.Origin == "param":
+					hi := ab.Len
+					if a.Hi != nil {
+						hi = a.Hi
+					}
+					return in.newBuf(st, &BufObj{Origin: "rstream", Src: "P", Len: a.Off, Extent: hi, Pos: call.Pos()})
+				case ab != nil && (ab.Origin == "make" || ab.Origin == "nil" || ab.Origin == "lit" || ab.Origin == "append"):
+					// NewBuffer(make([]byte, 0, n)) and the like: the stream starts with the slice's contents
+					sv := in.newStream(st, call.Pos())
+					if !in.viewLen(st, a).IsZero() {
+						in.streamAppendBytes(st, st.bufs[sv.ID], a, call.Args[0], call.Pos())
+					}
+					return sv
+				}
+			}
+		}
 		switch name {
 		case "Len":
 			if ov, ok := recvVal.(ObjV); ok {
@@ -318,6 +378,19 @@ func (in *Interp) call(st *State, call *ast.CallExpr) Val {
 	}
 	cr.Args = args
 
+	// a method of a module interface that exactly one type of the module implements, where that type is not
+	// a wire kind of its own (a value holder such as a DHCP option): the call is that type's method
+	if sig.Recv() != nil && in.w.FuncOf(f) == nil {
+		if _, isIface := sig.Recv().Type().Underlying().(*types.Interface); isIface {
+			if impl := in.w.uniqueImpl(f); impl != nil && in.depth < maxInline && !in.recursing(impl) {
+				rv := recvVal
+				if ov, ok := recvVal.(ObjV); ok {
+					rv = ObjV{Path: ov.Path, Type: impl.Obj.Type().(*types.Signature).Recv().Type()}
+				}
+				return in.inlineFunc(st, impl, rv, args, call)
+			}
+		}
+	}
 	// the wire interface: Len / MarshalBinary / UnmarshalBinary on some value
 	if sig.Recv() != nil {
 		switch {
@@ -479,6 +552,9 @@ func (in *Interp) builtin(st *State, name string, call *ast.CallExpr) Val {
 		return UnkV{"make"}
 	case "new":
 		t := in.info.TypeOf(call)
+		if isBytesBuffer(t) {
+			return in.newStream(st, call.Pos())
+		}
 		return in.newObj(t)
 	case "append":
 		return in.appendCall(st, call)
@@ -1278,6 +1354,9 @@ func (in *Interp) zeroOf(st *State, t types.Type) Val {
 	case *types.Slice:
 		return SliceV{Len: Const(0)}
 	case *types.Struct:
+		if isBytesBuffer(t) {
+			return in.newStream(st, token.NoPos)
+		}
 		return in.newObj(t)
 	}
 	return UnkV{"zero"}
@@ -1326,4 +1405,56 @@ func altOf(a, b Val) (Val, bool) {
 		return alts[0], true
 	}
 	return AltV{Alts: alts, MayNil: mayNil}, true
+}
+
+// uniqueImpl: the one method of the module that implements the interface method f, when the interface is
+// declared in the module, exactly one named type of the module implements it, and that type is not a wire
+// kind (kinds are summarised through their own size / encode / decode summaries).
+func (w *World) uniqueImpl(f *types.Func) *FuncInfo {
+	if w.implCache == nil {
+		w.implCache = map[*types.Func]*FuncInfo{}
+	}
+	if fi, ok := w.implCache[f]; ok {
+		return fi
+	}
+	w.implCache[f] = nil
+	sig, _ := f.Type().(*types.Signature)
+	if sig == nil || sig.Recv() == nil || f.Pkg() == nil || !w.isModPkg(f.Pkg()) {
+		return nil
+	}
+	iface, _ := sig.Recv().Type().Underlying().(*types.Interface)
+	if iface == nil {
+		return nil
+	}
+	var found *FuncInfo
+	n := 0
+	seenT := map[*types.Named]bool{}
+	for _, key := range w.sortedFuncKeys() {
+		fi := w.Funcs[key]
+		if fi.Recv == nil || seenT[fi.Recv] {
+			continue
+		}
+		seenT[fi.Recv] = true
+		if _, isI := fi.Recv.Underlying().(*types.Interface); isI {
+			continue
+		}
+		if !types.Implements(fi.Recv, iface) && !types.Implements(types.NewPointer(fi.Recv), iface) {
+			continue
+		}
+		n++
+		if w.KindOfType(fi.Recv) != nil {
+			return nil
+		}
+		ms := types.NewMethodSet(types.NewPointer(fi.Recv))
+		if sel := ms.Lookup(fi.Pkg.Types, f.Name()); sel != nil {
+			if mf, ok := sel.Obj().(*types.Func); ok {
+				found = w.FuncOf(mf)
+			}
+		}
+	}
+	if n != 1 || found == nil || found.Decl.Body == nil {
+		return nil
+	}
+	w.implCache[f] = found
+	return found
 }
